@@ -177,7 +177,16 @@ class Gen:
         if c < 0.80:
             return self.bitregion()
         if c < 0.83:
-            return ["ByteSwapped", self.fixed_leaf()]
+            if r.random() < 0.6:
+                return ["ByteSwapped", self.fixed_leaf()]
+            # bit order reversed in every byte: fixed-size inner constructs are translated as one block, all others byte by byte
+            # through a translating stream (inner constructs that only read forward)
+            B, V = ["name", "Byte"], ["name", "VarInt"]
+            inner = [self.fixed_leaf(), ["PascalString", V, "utf8"], ["Prefixed", V, ["name", "GreedyBytes"], False], ["Struct", [["n", V], ["d", ["Bytes", ["this", "n"]]]]],
+                     ["CString", "ascii"], ["PrefixedArray", B, ["name", "Int16ul"]], ["Struct", [["a", ["name", "Int16ub"]], ["s", ["PascalString", B, "ascii"]]]]]
+            if tail and not self.strict:
+                inner += [["name", "GreedyBytes"], ["Struct", [["a", B], ["rest", ["name", "GreedyBytes"]]]], ["GreedyRange", B]]    # (one-byte elements: the translating stream cannot step back over a partly read element)
+            return ["BitsSwapped", r.choice(inner)]
         if c < 0.86 and tail and self.fragment == "full":
             return ["ProcessXor", r.choice([0, 1, 0x5a, 255, tag(b"\x01\x02"), tag(b"\x00")]), self.recipe(depth - 1, True)]
         if c < 0.875 and tail and self.fragment == "full":
@@ -187,7 +196,7 @@ class Gen:
                               ["Struct", [["p", ["Bytes", g]], ["q", ["BytesInteger", g, True, False]]]]])
             return ["ProcessRotateLeft", amount, g, inner]
         if c < 0.886 and tail and not self.strict and self.fragment == "full":
-            return r.choice([self.select_family, lambda: self.lazy_family(depth), self.region_family, self.root_family])()
+            return r.choice([self.select_family, lambda: self.lazy_family(depth), self.region_family, self.root_family, lambda: self.index_family(tail)])()
         if c < 0.90:
             return ["Optional", self.optional_inner()] if (tail and not self.strict) else ["Hex", self.int_leaf()]
         if c < 0.94:
@@ -265,6 +274,24 @@ class Gen:
                         ["FocusedSeq", "s", [[None, ["Const", tag(b"\x01"), None]], ["s", lvl3]]], ["Prefixed", B, ["Struct", [["s", lvl3], ["r", ["PrefixedArray", B, ["Struct", [["e", leaf()]]]]]]], False]])
         return ["Struct", [["n0", B], ["a", mid], ["t", leaf()]]]
 
+    def index_family(self, tail=True):
+        """repeaters whose elements open a scope of their own and depend on the running element index (this._index reaches
+        the members of a Struct / Sequence element, and nested ones, in both directions)"""
+        r = self.rng
+        B = ["name", "Byte"]
+        I = ["this", "_index"]
+        el = r.choice([
+            ["Struct", [["tag", B], ["body", ["Bytes", ["bin", "+", I, 1]]]]],
+            ["Struct", [["hd", ["If", ["bin", "==", I, 0], ["Const", tag(b"HD"), None]]], ["v", ["name", "Int16ub"]]]],
+            ["Struct", [["i", ["Computed", I]], ["xs", ["Array", I, B]], ["t", B]]],
+            ["Struct", [["inner", ["Struct", [["d", ["Bytes", I]], ["e", B]]]], ["t", B]]],
+            ["Struct", [["t", B], ["s", ["Switch", I, [[0, B], [1, ["name", "Int16ul"]]], ["Bytes", 3]]]]],
+            ["Sequence", [[None, B], [None, ["PaddedString", ["bin", "+", I, 2], "ascii"]]]],
+            ["Struct", [["w", ["IfThenElse", ["bin", ">=", I, 2], ["name", "Int32ub"], B]], ["p", ["Padding", I]]]],
+        ])
+        rep = r.choice([["Array", r.randint(1, 4), el], ["PrefixedArray", r.choice([B, ["name", "VarInt"]]), el]] + ([["GreedyRange", el]] if tail and not self.strict else []))
+        return ["Struct", [["h", B], ["xs", rep]]]
+
     def optional_inner(self):
         # Optional at the end of a region: alternatives that cannot be confused with "nothing"
         # (not Const/Default/...: anything that builds from nothing makes Optional.build(None) emit bytes - the alternatives
@@ -305,7 +332,7 @@ class Gen:
             return True
         if k == "AlignedStruct":
             return False
-        if k in ("Hex", "ByteSwapped"):
+        if k in ("Hex", "ByteSwapped", "BitsSwapped"):
             return self.may_be_empty(x[1])
         if k in ("Padded", "FixedSized"):
             return x[1] == 0
@@ -427,7 +454,12 @@ class Gen:
                 self.kw["k"] = 2
                 ms.append([name, ["Struct", inner]])
             elif c < 0.60:
-                ms.append([name, ["Computed", ["bin", "+", ["this", r.choice(ints)], 1]]] if ints else [name, ["Computed", 5]])
+                if ints and r.random() < 0.5:
+                    # a computed member that later lengths / counts / selectors depend on (build recomputes it whatever the value holds)
+                    ms.append(["n%d" % i, ["Computed", ["bin", "+", ["this", r.choice(ints)], 1]]])
+                    ints.append("n%d" % i)
+                else:
+                    ms.append([name, ["Computed", ["bin", "+", ["this", r.choice(ints)], 1]]] if ints else [name, ["Computed", 5]])
             elif c < 0.64:
                 ms.append([None, r.choice([["Const", tag(b"MZ"), None], ["Padding", 2], ["name", "Pass"]])])
             else:
@@ -538,7 +570,7 @@ def genval(r, rng, sc, name=None):
         fixed = sum(M.size(m, M.new_scope(sc)) for _, m in a[0][1][:-1])
         v[a[0][1][-1][0]] = bytes(rng.randrange(2) for _ in range(-fixed % 8 + 8 * rng.randint(0, 2)))
         return v
-    if k in ("Hex", "HexDump", "ByteSwapped", "NullStripped", "Bitwise", "Bytewise"):
+    if k in ("Hex", "HexDump", "ByteSwapped", "BitsSwapped", "NullStripped", "Bitwise", "Bytewise"):
         return genval(a[0], rng, sc)
     if k == "Renamed":
         return genval(a[1], rng, sc, name)
@@ -575,10 +607,10 @@ def genval(r, rng, sc, name=None):
             c = rng.randint(0, 3)
         if c > 64:
             raise M.ModelGap("value generation: count %d too large" % c)
-        return [genval(a[1], rng, sc) for _ in range(max(0, c))]
+        return _elements(a[1], max(0, c), rng, sc)
     if k in ("PrefixedArray", "GreedyRange"):
         el = a[1] if k == "PrefixedArray" else a[0]
-        return [genval(el, rng, sc) for _ in range(rng.randint(0, 3))]
+        return _elements(el, rng.randint(0, 3), rng, sc)
     if k == "RepeatUntil":
         ir = int_range(a[1], sc)
         return [rng.randint(1, min(ir[1], 300)) for _ in range(rng.randint(0, 3))] + [0]
@@ -616,6 +648,22 @@ def genval(r, rng, sc, name=None):
     if k == "NullTerminated":
         return genval(a[0], rng, sc)
     raise M.ModelGap("genval " + k)
+
+
+def _elements(el, n, rng, sc):
+    """n element values, each generated with the repeater's running index visible (this._index)"""
+    had, prev = "_index" in sc, sc.get("_index")
+    out = []
+    try:
+        for i in range(n):
+            sc["_index"] = i
+            out.append(genval(el, rng, sc))
+    finally:
+        if had:
+            sc["_index"] = prev
+        else:
+            sc.pop("_index", None)
+    return out
 
 
 def scope_value(m, sc):
